@@ -144,8 +144,11 @@ def corruptions(kind, spec, other_state="zz9", other_symbol="k"):
     L = base.split("\n")
     out = []
 
+    ntrans = len(labels(kind, spec))
+    trans_start = len(L) - ntrans          # render() writes the declarations first, then one line per transition
+
     def idx(prefix):
-        return next(i for i, l in enumerate(L) if l.split()[0] == prefix)
+        return next(i for i, l in enumerate(L[:trans_start]) if l.split()[0] == prefix)
 
     def without(i):
         return "\n".join(L[:i] + L[i + 1:])
@@ -153,14 +156,15 @@ def corruptions(kind, spec, other_state="zz9", other_symbol="k"):
     def add(line):
         return "\n".join(L + [line])
 
-    trans_start = max(i for i, l in enumerate(L) if l.split()[0] in ("states", "initial", "final", "accept", "reject", "input_symbols", "stack_symbols", "tape_symbols", "epsilon", "blank")) + 1
     trans = L[trans_start:]
     q = spec["Q"][0]
     # structural faults common to all kinds
     out.append(("no_initial", without(idx("initial"))))
-    out.append(("empty_initial", "\n".join(l if l.split()[0] != "initial" else "initial" for l in L)))
+    def decl(first, fn):
+        return "\n".join(fn(l) if i < trans_start and l.split()[0] == first else l for i, l in enumerate(L))
+    out.append(("empty_initial", decl("initial", lambda l: "initial")))
     if len(spec["Q"]) >= 2:
-        out.append(("two_initial", "\n".join(l if l.split()[0] != "initial" else "initial %s %s" % (spec["Q"][0], spec["Q"][1]) for l in L)))
+        out.append(("two_initial", decl("initial", lambda l: "initial %s %s" % (spec["Q"][0], spec["Q"][1]))))
     for key in ("states", "initial", "input_symbols") + (("final",) if kind != "tm" else ("accept", "reject", "tape_symbols", "blank")) + \
             (("epsilon",) if kind in ("nfa", "pda") else ()) + (("stack_symbols",) if kind == "pda" else ()):
         out.append(("repeated_" + key, add(L[idx(key)])))
@@ -168,7 +172,7 @@ def corruptions(kind, spec, other_state="zz9", other_symbol="k"):
     out.append(("illegal_state_label", add("%s q-1 %s" % (q, trans[0].split()[2] if trans else "a"))))
     out.append(("undeclared_state", add("%s %s %s" % (q, other_state, trans[0].split()[2])) if trans else add("initial_state_%s %s x" % (q, other_state))))
     if kind != "tm":
-        out.append(("undeclared_final_state", "\n".join(l if l.split()[0] != "final" else l + " " + other_state for l in L)))
+        out.append(("undeclared_final_state", decl("final", lambda l: l + " " + other_state)))
     # symbol faults
     if kind == "dfa":
         if spec["S"]:
@@ -196,5 +200,5 @@ def corruptions(kind, spec, other_state="zz9", other_symbol="k"):
         out.append(("malformed_label_short", add("%s %s %s,R" % (q, q, b))))
         out.append(("malformed_label_no_comma", add("%s %s %s%sR" % (q, q, b, b))))
         if spec["S"]:
-            out.append(("input_symbol_not_on_tape", "\n".join(l if l.split()[0] != "input_symbols" else l + " K" for l in L)))
+            out.append(("input_symbol_not_on_tape", decl("input_symbols", lambda l: l + " K")))
     return out
